@@ -34,32 +34,43 @@ Proof. exact shipped_sleep_means_window_full. Qed.
 Print Assumptions C19_sleep_means_window_full.
 
 (* cache decision: a request is issued iff no cache path, no file, empty file, or overwrite *)
-Theorem C19_request_iff : forall server f c,
-  fst (snd (fetch server f c)) = true <->
+Theorem C19_request_iff : forall f c,
+  fst (snd (fetch f c)) = true <->
   (f_path c = None \/ exists p, f_path c = Some p /\
      (fs_get (fkey c p) f = None \/ (exists v, fs_get (fkey c p) f = Some v /\ length v = 0%nat) \/ f_overwrite c = true)).
 Proof. exact request_iff. Qed.
 Print Assumptions C19_request_iff.
 
-Theorem C19_cache_hit : forall server f c p v, f_path c = Some p -> fs_get (fkey c p) f = Some v -> v <> [] ->
-  f_overwrite c = false -> fetch server f c = (f, (false, v)).
+Theorem C19_cache_hit : forall f c p v, f_path c = Some p -> fs_get (fkey c p) f = Some v -> v <> [] ->
+  f_overwrite c = false -> fetch f c = (f, (false, v)).
 Proof. exact cache_hit. Qed.
 Print Assumptions C19_cache_hit.
 
-Theorem C19_fetch_request : forall server f c, fst (snd (fetch server f c)) = true ->
-  snd (snd (fetch server f c)) = server (f_id c) /\
-  forall p, f_path c = Some p -> fs_get (fkey c p) (fst (fetch server f c)) = Some (server (f_id c)).
+Theorem C19_fetch_request : forall f c, fst (snd (fetch f c)) = true ->
+  snd (snd (fetch f c)) = f_payload c /\
+  forall p, f_path c = Some p -> fs_get (fkey c p) (fst (fetch f c)) = Some (f_payload c).
 Proof. exact fetch_request. Qed.
 Print Assumptions C19_fetch_request.
 
-(* at most one request per (path, id, extension) in any history, unless overwrite is set or the payload was empty *)
-Theorem C19_cache_once : forall server f pre c p mid c2 p2,
-  f_path c = Some p -> server (f_id c) <> [] ->
+(* at most one request per (path, id, extension) in any history, unless overwrite is set or the payload was empty;
+   the server may answer differently at different times (f_payload is per call) *)
+Theorem C19_cache_once : forall f pre c p mid c2 p2,
+  f_path c = Some p -> f_payload c <> [] -> Forall (pay_ok (fkey c p)) mid ->
   f_path c2 = Some p2 -> fkey c2 p2 = fkey c p -> f_overwrite c2 = false ->
-  let f' := fst (fetch_all server (fst (fetch server (fst (fetch_all server f pre)) c)) mid) in
-  exists v, fetch server f' c2 = (f', (false, v)) /\ v <> [].
+  let f' := fst (fetch_all (fst (fetch (fst (fetch_all f pre)) c)) mid) in
+  exists v, fetch f' c2 = (f', (false, v)) /\ v <> [].
 Proof. exact cache_once. Qed.
 Print Assumptions C19_cache_once.
+
+(* ... in particular for a server whose answer depends on the id only *)
+Theorem C19_cache_once_const : forall (server : N -> str) f pre c p mid c2 p2,
+  Forall (fun x => f_payload x = server (f_id x)) (c :: mid) ->
+  f_path c = Some p -> server (f_id c) <> [] ->
+  f_path c2 = Some p2 -> fkey c2 p2 = fkey c p -> f_overwrite c2 = false ->
+  let f' := fst (fetch_all (fst (fetch (fst (fetch_all f pre)) c)) mid) in
+  exists v, fetch f' c2 = (f', (false, v)) /\ v <> [].
+Proof. exact cache_once_const. Qed.
+Print Assumptions C19_cache_once_const.
 
 (* non-vacuity: a burst of five immediate calls without API key; the 4th must wait a full window *)
 Example C19_witness :
